@@ -487,9 +487,18 @@ def run_ill_typed_construction(chk, rnd, rows, stats):
     g = walkgen.last_of_sort(env, nodes)
     diffs = []
     cat = bad_constructions(env, nodes, rows)
+    memo_reported = False
     for k, (label, bad) in enumerate(cat):
+        sizes = dict((w, len(getattr(env, w).memoization)) for w in LONG_LIVED if not getattr(env, w).invalidate_memoization)
         first = outcome(bad)
         stats["failing_calls"] += 1
+        for w, n0 in sizes.items():
+            # theorem (C15_failure_transparent): after a call that raised the memo is correct and has ONLY GROWN
+            if len(getattr(env, w).memoization) < n0 and not memo_reported:
+                memo_reported = True
+                chk.violation({"kind": "history", "what": "the memo table of env.%s shrank from %d to %d entries across the rejected construction %s: what was computed before a "
+                               "failing call is thrown away (model: memo correct and only grown after a walk that raised)" % (w, n0, len(getattr(env, w).memoization), label),
+                               "recipe": rows, "repro": "harness.c15.replay_construction(%r, %d)" % (rows, k)}, key="memo-shrinks-after-failure:%s" % w)
         if first[0] != "raise":
             stats["fault_not_reached"] += 1        # accepted: C03's business, not a failing call
             continue
